@@ -2,7 +2,7 @@
 accompany it (always labelled bounded), what is assumed."""
 
 COMMON_TRUSTED = [
-    "CPython 3.12 executes the mechanically rewritten body (pyvc/rewrite.py rules R1-R9) as it executes the original",
+    "CPython 3.12 executes the mechanically rewritten body (pyvc/rewrite.py rules R1-R11) as it executes the original (tested, not proved: harness/differential.py compares rewritten and original bodies of 17 functions on concrete inputs)",
     "z3 5.1 (and cvc5 1.0.3 as fall-back) are sound",
     "pyvc engine: symbolic proxies, loop-cut rule, finite-scope refutation (a finite model is a model)",
 ]
@@ -37,18 +37,18 @@ def P_(groups, bounded=(), harness=None, trusted=SCHED_TRUSTED, assumptions=SCHE
 PROPS = {
     "C01": P_(["values", "dagproto", "nodeexec", "nodebuild", "retwrap", "threads", "decorators"], ["programs", "programs_flat", "reference_matrix", "operator_table", "id_strings", "default_identity"], claim="other",
               explanation="Mixed: the value-level functions between the recorded node table and the returned value are proved against their contracts; that the recorded table is the meaning of the describing function (tracing) is only covered by the bounded program-level stand-in."),
-    "C02": P_(["scheduler", "values", "nodeexec", "graphbuild", "nodebuild"], ["reference_matrix", "graph_build", "conformance"], dict(SW)),
+    "C02": P_(["scheduler", "values", "nodeexec", "graphbuild", "nodebuild"], ["reference_matrix", "graph_build", "conformance", "differential"], dict(SW)),
     "C03": P_(["scheduler", "values", "digraph", "dagproto", "graphbuild", "nodebuild", "subdag"], ["programs_flat", "selection", "graph_build", "reference_matrix", "id_strings"], dict(SW, active=True)),
     "C04": P_(["scheduler", "values", "dagproto", "dagadmin", "decorators"], ["config"], dict(SW)),
     "C05": P_(["scheduler", "nodeexec", "decorators"], ["config"], dict(SW)),
     "C06": P_(["scheduler", "digraph", "dagproto", "graphbuild"], ["config", "graph_build", "priority_table", "conformance"], dict(SW)),
-    "C07": P_(["digraph", "dagproto", "nodeexec", "dagadmin", "graphbuild"], ["priority_table", "config", "graph_build"]),
+    "C07": P_(["digraph", "dagproto", "nodeexec", "dagadmin", "graphbuild"], ["priority_table", "config", "graph_build", "differential"]),
     "C08": P_(["scheduler", "dagproto", "dagadmin", "graphbuild"], ["config", "graph_build"], dict(SW)),
     "C09": P_(["scheduler", "values", "graphbuild"], ["graph_build", "conformance"], dict(SW, fail=True, active=True)),
     "C10": P_(["scheduler", "values", "graphbuild", "nodebuild", "subdag"], ["programs", "reference_matrix"], dict(SW, active=True)),
     "C11": P_(["dagproto", "digraph", "values", "dagadmin", "graphbuild", "nodebuild", "decorators"], ["setup_histories", "build_validation", "graph_build"]),
-    "C12": P_(["digraph", "dagproto", "values", "dagadmin", "graphbuild"], ["selection", "graph_build", "conformance"]),
-    "C13": P_(["digraph", "dagproto", "dagadmin", "graphbuild", "nodebuild", "decorators"], ["selection_debug", "build_validation", "graph_build", "conformance"]),
+    "C12": P_(["digraph", "dagproto", "values", "dagadmin", "graphbuild"], ["selection", "graph_build", "conformance", "differential"]),
+    "C13": P_(["digraph", "dagproto", "dagadmin", "graphbuild", "nodebuild", "decorators"], ["selection_debug", "build_validation", "graph_build", "conformance", "differential"]),
     "C14": P_(["scheduler", "values", "dagproto", "nodeexec"], ["profile"], dict(SW, fail=True)),
     "C15": P_(["dagproto", "values", "digraph", "dagadmin", "subdag"], ["no_leak", "selection", "compose", "config", "conformance"]),
     "C16": P_(["threads", "dagproto", "values", "nodebuild", "subdag", "decorators"], ["threads"], claim="other",
